@@ -394,8 +394,13 @@ def gen_gr1(rng, ops, break_it=False):
         conj.append(('init', P(sp())))
     if break_it:
         kind = rng.choice(['dia', 'nested', 'initX', 'two_pers', 'disj',
-                           'dia_box_dia', 'box_or', 'until'])
+                           'dia_box_dia', 'box_or', 'until',
+                           'pers_prime', 'pers_next', 'rec_prime', 'rec_next',
+                           'pers_prime', 'pers_next'])
         s = sp()
+        if kind.startswith('pers_'):
+            # the only persistence goal: so that nothing else rejects it
+            conj = [c for c in conj if c[0] != 'live']
         bad = {
             'dia': [T('EVENTUALLY')] + P(s),
             'nested': [T('ALWAYS')] + P([T('ALWAYS')] + P(s)),
@@ -407,6 +412,15 @@ def gen_gr1(rng, ops, break_it=False):
             'box_or': P([T('ALWAYS')] + P(s) + [T('OR'), T('ALWAYS')]
                         + P(sp())),
             'until': P(P(s) + [T('UNTIL'), T('ALWAYS')] + P(sp())),
+            # a next-state value inside a liveness goal
+            'pers_prime': [T('EVENTUALLY'), T('ALWAYS')]
+            + P(P(s + [T('PRIME')]) + [T('AND')] + P(sp())),
+            'pers_next': [T('EVENTUALLY'), T('ALWAYS')]
+            + P([T('NEXT')] + P(s)),
+            'rec_prime': [T('ALWAYS'), T('EVENTUALLY')]
+            + P(P(s + [T('PRIME')]) + [T('OR')] + P(sp())),
+            'rec_next': [T('ALWAYS'), T('EVENTUALLY')]
+            + P([T('NEXT')] + P(s)),
         }[kind]
         if kind == 'two_pers':
             conj.append(('bad', [T('EVENTUALLY'), T('ALWAYS')] + P(sp())))
